@@ -167,7 +167,7 @@ pub fn run_c06(ctx: &Ctx) {
     let calls = AtomicU64::new(0);
     // (a) all messages up to len over {00,01,02,FF}
     let alpha = [0x00u8, 0x01, 0x02, 0xFF];
-    let maxlen = if ctx.quick() { 8 } else { 10 };
+    let maxlen = if ctx.quick() { 9 } else { 10 };
     let mut msgs: Vec<Vec<u8>> = vec![];
     for l in 0..=maxlen {
         vmodel::for_each_string(&alpha, l, &mut |s| msgs.push(s.to_vec()));
@@ -489,7 +489,7 @@ fn c07_case(ctx: &Ctx, s: &Shape, x: &[u8], order: u64, st: &mut [u64; 4]) {
 }
 
 pub fn run_c07(ctx: &Ctx) {
-    let maxlen = if ctx.quick() { 7 } else { 9 };
+    let maxlen = if ctx.quick() { 8 } else { 9 };
     let targets = c07_targets();
     let mut strings: Vec<Vec<u8>> = vec![];
     for l in 0..=maxlen {
